@@ -18,7 +18,7 @@ import re
 import six
 
 from genshi.core import Attrs, QName, stripentities
-from genshi.core import END, START, TEXT, COMMENT, PI
+from genshi.core import END, START, TEXT, COMMENT, PI, START_CDATA, END_CDATA
 
 __all__ = ['HTMLFormFiller', 'HTMLSanitizer']
 __docformat__ = 'restructuredtext en'
@@ -421,6 +421,15 @@ class HTMLSanitizer(object):
             elif kind is PI and ('>' in data[0] or '>' in data[1]):
                 # An HTML parser ends a processing instruction at the first
                 # '>': what follows would be read as markup
+                continue
+
+            elif kind is START_CDATA or kind is END_CDATA:
+                # The markers of a CDATA section are not passed on: the text
+                # between them would be written verbatim by the XML and XHTML
+                # serializers, where a ']]>' in it (or a reader that knows no
+                # CDATA sections, such as an HTML parser) ends the section and
+                # exposes the rest as markup. Without the markers the text is
+                # escaped like any other text
                 continue
 
             elif kind is not COMMENT:
